@@ -13,6 +13,7 @@ LEVEL_TEXT = ("Static structural proof of necessary conditions: (R18.1) in creat
               "before any run; (R18.5) a backup becomes listed only past the two-entry test and both consistency "
               "raises. Byte identity, interruption at arbitrary I/O steps (the record write itself is not atomic) and "
               "idempotence of re-running are NOT decided.")
+LEVEL_EXTRA = 'Added after the seeded evaluation: (R18.2) the name tested by the same-name refusal is the name used by every write (no re-definition in between); (R18.4) the data tree is scanned (file list, task parsing) only after the restore.'
 
 COPY_NAMES = ("copy", "copy2", "copyfile", "copytree", "move")
 
